@@ -753,7 +753,7 @@ func (e *fnEnc) effectObligations(c *blockCtx, in ssa.Instruction, kind, callee 
 	for _, cl := range e.ctr.Get("effect") {
 		// syntax: effect go#0 requires expr   |  effect os.OpenFile#0 requires expr
 		f := strings.SplitN(cl.Text, " ", 3)
-		if len(f) < 3 || f[1] != "requires" {
+		if len(f) < 3 || (f[1] != "requires" && f[1] != "sets") {
 			continue
 		}
 		target := f[0]
@@ -781,6 +781,33 @@ func (e *fnEnc) effectObligations(c *blockCtx, in ssa.Instruction, kind, callee 
 			ord = e.callOrdinal(in, callee)
 		}
 		if fmt.Sprint(ord) != tord {
+			continue
+		}
+		if f[1] == "sets" {
+			// ghost update: <obj>.<ghostfield> = <expr>
+			k := strings.Index(f[2], "=")
+			lhs, err1 := parseExpr(strings.TrimSpace(f[2][:k]))
+			rhs, err2 := parseExpr(strings.TrimSpace(f[2][k+1:]))
+			if err1 != nil || err2 != nil {
+				e.fail("effect sets: %v %v", err1, err2)
+			}
+			env := e.envAt(c.b, e.curIdx, c.st)
+			sel, ok := lhs.(*ESel)
+			if !ok {
+				e.fail("effect sets: left side must be obj.field")
+			}
+			base := e.evalSpec(sel.X, env)
+			si := e.structOf(ptrElem(base.typ))
+			fi := si.fieldIndex(sel.Name)
+			if fi < 0 || !si.fields[fi].ghost {
+				e.fail("effect sets: %s is not a ghost field", sel.Name)
+			}
+			rv := e.evalSpec(rhs, env)
+			val := rv.t
+			if rv.lit != nil {
+				val = e.litAs(rv.lit, si.fields[fi].sort)
+			}
+			e.storeField(c.st, si, base.t, fi, val)
 			continue
 		}
 		ex, err := parseExpr(f[2])
